@@ -133,12 +133,12 @@ def gen_doc(rng, malformed=False):
                 meta['comments'] = rng.choice([[], ['c one'], ['c one', 'c two; x'], ['a', 'b', 'c']])
             if rng.random() < 0.5:
                 meta['synonyms'] = [{'pred': rng.choice(['hasExactSynonym', 'hasRelatedSynonym', 'hasBroadSynonym', 'hasNarrowSynonym', 'hasOther']),
-                                     'val': f'syn {k}', **({'synonymType': rng.choice(SYN_TYPES)} if rng.random() < 0.6 else {}),
+                                     'val': f'syn {k if rng.random() < 0.7 else 0}', **({'synonymType': rng.choice(SYN_TYPES)} if rng.random() < 0.6 else {}),
                                      **({'xrefs': rng.choice([[], ['HP:1'], ['junk', 'PMID:2'], ['junk'], ['https://orcid.org/0000-0002-0736-9199'],
                                                               ['orcid.org/0000-0001-5208-3432', 'PMID:3'], ['http://orcid.org/0000-0002-0736-919X'],
                                                               ['https://orcid.org/0000-0002-0736-91990', 'ORCID:0000-0002-0736-9199'],
                                                               ['see https://orcid.org/0000-0003-1234-5678']])} if rng.random() < 0.7 else {})}
-                                    for k in range(rng.randrange(0, 3))]
+                                    for k in range(rng.randrange(0, 4))]
             if rng.random() < 0.4:
                 meta['xrefs'] = [{'val': rng.choice(['UMLS:C1', 'SNOMEDCT_US:12', 'MSH:D1'])} for _ in range(rng.randrange(0, 3))]
                 if malformed and meta['xrefs'] and rng.random() < 0.4:
